@@ -257,6 +257,16 @@ rec_initadd(struct initparser *p, struct init *new)
 	p->last = &new->next;      /* as the real one: the next positional request scans from here */
 }
 
+/*
+ * A harness runs many scripts of FIXED structure one after the other.  Each one is entered under a nondeterministic choice:
+ * a script that is (correctly) diagnosed ends its path in error() = assume(false) and must not cut off the scripts after it.
+ * g_last is set by the harness before its final script; the canary sits at the end of that one (all scripts before it were
+ * passed through).
+ */
+bool nondet_bool(void);
+static bool g_last;
+#define SCENARIO_ENTER() do { if (!nondet_bool()) return; } while (0)
+
 /* one expected request */
 #define EXPECT_REC(i, off, sz, id, ex, msg) \
 	__CPROVER_assert(r_start[i] == (off) && r_end[i] == (off) + (sz) && r_before[i] == 0 && r_after[i] == 0 && \
